@@ -71,6 +71,8 @@ func annotationKeyOf(p *Prog, v ssa.Value, depth int) []string {
 func runC19(c *Ctx) {
 	borrow(c, "O8", "C02", "O14", "", "the portion the scheduler derives from a gpu-memory annotation is what it accounts, writes into the BindRequest and the binder turns into GPU_PORTION: rounded down it is less than the annotation the admission webhook accepted")
 	runC19Received(c)
+	runC19OneCdiNamePerDevice(c)
+	runC19PortionFixedPoint(c)
 	runC19EnvUpsert(c)
 	runC19ContainerRef(c)
 	runC19ConfigMapName(c)
@@ -678,4 +680,75 @@ func fieldOrigins(base ssa.Value, f int, depth int, seen map[ssa.Value]bool) []s
 		}
 	}
 	return out
+}
+
+// runC19OneCdiNamePerDevice (O9): the scheduler reserves a LIST of devices for a multi-device fraction; the binder hands
+// the container one device name per reserved device. With CDI each name is the format applied to ONE index: the
+// Sprintf(CdiDeviceNameBase, …) of the gpusharing PreBind sits in a loop over the reserved ids (or in a function value
+// applied per element), never on the joined list.
+func runC19OneCdiNamePerDevice(c *Ctx) {
+	f := c.Anchor("O9", "pkg/binder/plugins/gpusharing", "GPUSharing", "PreBind")
+	if f == nil {
+		return
+	}
+	n := 0
+	for _, h := range c.P.deepFind(f, func(in ssa.Instruction) bool {
+		cc, ok := in.(ssa.CallInstruction)
+		if !ok || calleeOf(cc) == nil || calleeOf(cc).Name() != "Sprintf" || len(cc.Common().Args) == 0 {
+			return false
+		}
+		return strings.Contains(termOf(cc.Common().Args[0]).String(), "k8s.device-plugin.nvidia.com") || strings.Contains(termOf(cc.Common().Args[0]).String(), "CdiDeviceNameBase")
+	}, 2) {
+		n++
+		in := h.In
+		perElement := loopHeaderOf(in.Block()) != nil || in.Parent().Parent() != nil
+		for _, cs := range h.Chain {
+			if loopHeaderOf(cs.Block()) != nil {
+				perElement = true
+			}
+		}
+		// and the formatted operand is not a joined list
+		joined := false
+		for _, a := range in.(ssa.CallInstruction).Common().Args[1:] {
+			for _, src := range valueSources(a, 5) {
+				if cl, ok := src.(*ssa.Call); ok && calleeOf(cl) != nil && calleeOf(cl).Name() == "Join" {
+					joined = true
+				}
+			}
+		}
+		c.Check(perElement && !joined, "O9", "SHAPE", funcKey(f)+": the CDI device name is formed per reserved device", instrPos(in), "Sprintf(CdiDeviceNameBase, index) inside the loop over the reserved ids",
+			"the CDI name format is applied to the whole (joined) list of reserved devices instead of to each index: a multi-device fraction gets one qualified name followed by bare indexes, the container is wired to other devices than the scheduler reserved")
+	}
+	c.Floor("O9", "SHAPE CDI name formatting sites", n, 1)
+}
+
+// runC19PortionFixedPoint (O10): admission accepts a gpu-fraction with two decimals; the scheduler charges
+// portion × devices through fixed-point arithmetic in hundredths. The conversion of portion×100 to an integer goes
+// through math.Round: a plain float→int conversion truncates 0.29×100 = 28.999… to 28 and the scheduler charges less
+// than was admitted.
+func runC19PortionFixedPoint(c *Ctx) {
+	f := c.Anchor("O10", "pkg/scheduler/api/resource_info", "", "getExtendedResourceGpus")
+	if f == nil {
+		return
+	}
+	n := 0
+	for _, in := range instrsIn(f, func(in ssa.Instruction) bool {
+		cv, ok := in.(*ssa.Convert)
+		if !ok {
+			return false
+		}
+		from, okF := cv.X.Type().Underlying().(*types.Basic)
+		to, okT := cv.Type().Underlying().(*types.Basic)
+		return okF && okT && from.Info()&types.IsFloat != 0 && to.Info()&types.IsInteger != 0
+	}) {
+		n++
+		cv := in.(*ssa.Convert)
+		rounded := false
+		if cl, ok := cv.X.(*ssa.Call); ok && calleeOf(cl) != nil && funcPkgPath(calleeOf(cl)) == "math" && (calleeOf(cl).Name() == "Round" || calleeOf(cl).Name() == "RoundToEven") {
+			rounded = true
+		}
+		c.Check(rounded, "O10", "PROV", funcKey(f)+": the portion in hundredths is rounded to the nearest integer", instrPos(in), "int64(math.Round(portion × 100))",
+			"the portion is converted to hundredths by truncation: two-decimal fractions whose product with 100 falls just below an integer (0.29, 0.57, 0.58) are charged one hundredth less than admission accepted, in the node's accounting and in the queue's quota")
+	}
+	c.Floor("O10", "PROV float→integer conversions of the portion", n, 1)
 }
